@@ -1699,6 +1699,33 @@ def m_out(stream_arg):
     return f
 
 
+def m_strtok(it, args, e):
+    """strtok(s, delim) on concrete strings: skips leading delimiters, ends the token with a NUL written into the string, remembers where to go on"""
+    st, delim = args
+    dl = set(read_cstr(it, delim))
+    if st is None:
+        st = it.user.get('strtok_next')
+        if st is None: return None
+    if getattr(st.obj, 'symstr', None) is not None:
+        return st.obj.symstr.strtok(it, st, dl, e)
+    obj = st.obj; i = st.path[-1]; pre = st.path[:-1]
+    def at(k):
+        v = it.load(obj, pre + (k,))
+        if not isinstance(v, int): raise Unsupported('strtok over a non-concrete string')
+        return v
+    while at(i) != 0 and at(i) in dl: i += 1
+    if at(i) == 0:
+        it.user['strtok_next'] = None; return None
+    j = i
+    while at(j) != 0 and at(j) not in dl: j += 1
+    if at(j) == 0:
+        it.user['strtok_next'] = None
+    else:
+        it.assign(obj, pre + (j,), 0)
+        it.user['strtok_next'] = type(st)(obj, pre + (j + 1,)) if type(st) is Ptr else Ptr(obj, pre + (j + 1,))
+    return Ptr(obj, pre + (i,))
+
+
 def m_assert_fail(it, args, e):
     raise Terminal('assert', args)
 
@@ -1713,7 +1740,7 @@ DEFAULT_MODELS = {
     'malloc': m_alloc, 'xmalloc': m_alloc, 'calloc': m_alloc, 'xreallocarray': m_reallocarray, 'reallocarray': m_reallocarray,
     'free': m_free, 'memset': m_memset,
     'strlen': m_strlen, 'strcmp': m_strcmp, 'strncmp': m_strncmp, 'memcmp': m_memcmp,
-    'strchr': m_strchr, 'strrchr': m_strrchr, 'strstr': m_strstr, 'strpbrk': m_strpbrk, '__errno_location': m_errno_location,
+    'strtok': m_strtok, 'strchr': m_strchr, 'strrchr': m_strrchr, 'strstr': m_strstr, 'strpbrk': m_strpbrk, '__errno_location': m_errno_location,
     'isdigit': _ctype(lambda c: 48 <= c <= 57),
     'isalpha': _ctype(lambda c: 65 <= c <= 90 or 97 <= c <= 122),
     'isalnum': _ctype(lambda c: 48 <= c <= 57 or 65 <= c <= 90 or 97 <= c <= 122),
